@@ -109,10 +109,13 @@ func treeNodes(w *world, q string, vi *scheduler.VerifInvocation, items *[]strin
 	}
 	parked := "-"
 	if len(vi.IdleSynchronizingWorkers) > 0 {
+		// compared as a set: when several Synchronize calls parked at one invocation are woken in one
+		// segment, the order in which they dequeue themselves (swap-remove) is the Go scheduler's choice
 		parts := make([]string, len(vi.IdleSynchronizingWorkers))
 		for i, id := range vi.IdleSynchronizingWorkers {
 			parts[i] = parseWorkerID(id)
 		}
+		sort.Strings(parts)
 		parked = strings.Join(parts, ",")
 	}
 	// firstQueuedOperationPriority of an invocation that is not queued is a leftover that depends on
